@@ -576,15 +576,30 @@ func edgeBound(v ssa.Value, pred, succ *ssa.BasicBlock) int64 {
 	}
 	iff, ok := pred.Instrs[len(pred.Instrs)-1].(*ssa.If)
 	if !ok {
-		// pred may be the clamp block itself (x = K): look one block up when pred has a single predecessor
+		// pred is the assigning arm itself (`if n > K { x = n }`): it ends in a jump and is entered
+		// only from the testing block — use that edge
+		if _, isJump := pred.Instrs[len(pred.Instrs)-1].(*ssa.Jump); isJump && len(pred.Preds) == 1 && pred.Preds[0] != pred {
+			return edgeBound(v, pred.Preds[0], pred)
+		}
 		return lbUnknown
 	}
 	bo, ok := iff.Cond.(*ssa.BinOp)
 	if !ok {
 		return lbUnknown
 	}
+	op := bo.Op
 	k, isK := bo.Y.(*ssa.Const)
-	if !isK || k.Value == nil || !sameValue(bo.X, v, 3) {
+	x := bo.X
+	if !isK {
+		// K on the left: K op v  ≡  v flip(op) K
+		if k2, ok2 := bo.X.(*ssa.Const); ok2 {
+			k, isK, x = k2, true, bo.Y
+			if fo, ok := flipOp[op]; ok {
+				op = fo
+			}
+		}
+	}
+	if !isK || k.Value == nil || !sameValue(x, v, 3) {
 		return lbUnknown
 	}
 	idx := 0
@@ -592,7 +607,7 @@ func edgeBound(v ssa.Value, pred, succ *ssa.BasicBlock) int64 {
 		idx = 1
 	}
 	kv := k.Int64()
-	switch bo.Op.String() {
+	switch op.String() {
 	case "<": // true: v < K ; false: v >= K
 		if idx == 1 {
 			return kv
